@@ -139,17 +139,19 @@ Codes(f) == CASE f \in {"valueOneHash", "catNoHash"} -> {"PLACEHOLDER_INVALID"}
 
 \* A well-typed sidecar: a dictionary of dictionaries whose HED entries carry usable annotation
 \* strings; outside it the statement only demands that validation returns.
+\* (a column entry that is not an object - "TaskName": "rest", a number, a list - is an ignored column like an object
+\*  without a HED key, as long as HED is not mentioned inside it; a BLANK HED string is a string without a placeholder)
 WellTypedEntry(e) ==
-    /\ IsObj(e)
+    IF ~IsObj(e) THEN ~MentionsHED(e)
+    ELSE
     /\ \A j \in Idx(e) : e.m[j][1] # "HED" => ~MentionsHED(e.m[j][2])     \* HED only where it belongs
     /\ Has(e, "HED") => LET x == Get(e, "HED") IN
-                          /\ x.t # "estr"                                  \* blank is not an annotation
                           /\ IsObj(x) => (Len(x.m) > 0 /\ \A v \in Vals(x) : v.t # "estr")
 WellTyped(D) == IsObj(D) /\ \A i \in Cols(D) : WellTypedEntry(Entry(D, i))
 
 \* why a document is in its class, from the well-typedness and the set of broken rules
 WhyOf(D, wt, br) == IF ~IsObj(D) THEN "top-level-not-object"
-                    ELSE IF \E i \in Cols(D) : ~IsObj(Entry(D, i)) THEN "column-entry-not-object"
+                    ELSE IF ~wt /\ \E i \in Cols(D) : ~IsObj(Entry(D, i)) THEN "column-entry-not-object"
                     ELSE IF ~wt THEN "not-well-typed"
                     ELSE IF br = {} THEN "clean"
                     ELSE IF Cardinality(br) = 1 THEN "one-fault" ELSE "multi-fault"
@@ -205,9 +207,9 @@ HedPos(e)          == CHOOSE j \in Idx(e) : e.m[j][1] = "HED"
 SetHed(D, i, x)    == SetEntry(D, i, [Entry(D, i) EXCEPT !.m[HedPos(Entry(D, i))][2] = x])
 \* string sites of column i: 0 = the HED string of a value column, j > 0 = j-th category value
 Sites(D, i) == LET ty == ColType(Entry(D, i), FALSE) IN
-               IF ty = "value" THEN {0}
+               IF ty = "value" THEN (IF Get(Entry(D, i), "HED").t = "str" THEN {0} ELSE {})     \* (a blank string has no parts to alter)
                ELSE IF ty = "categorical"
-                    THEN {j \in Idx(Get(Entry(D, i), "HED")) : IsStr(Get(Entry(D, i), "HED").m[j][2])}
+                    THEN {j \in Idx(Get(Entry(D, i), "HED")) : Get(Entry(D, i), "HED").m[j][2].t = "str"}
                     ELSE {}
 SiteStr(D, i, j) == IF j = 0 THEN Get(Entry(D, i), "HED") ELSE Get(Entry(D, i), "HED").m[j][2]
 SetSite(D, i, j, s) == IF j = 0 THEN SetHed(D, i, s)
@@ -230,7 +232,8 @@ InjHedType == CanInject /\ \E i \in Cols(doc) : Has(Entry(doc, i), "HED") /\
                         Do("hedType", SetSite(doc, i, j, x))
 \* a value column with no or two placeholders
 InjValueHash == CanInject /\ \E i \in Cols(doc) : ColType(Entry(doc, i), FALSE) = "value" /\
-                   \E h \in {0, 2} : Do("valueOneHash", SetSite(doc, i, 0, [SiteStr(doc, i, 0) EXCEPT !.h = h, !.d = FALSE]))
+                   \/ \E h \in {0, 2} : Do("valueOneHash", SetSite(doc, i, 0, [SiteStr(doc, i, 0) EXCEPT !.h = h, !.d = FALSE]))
+                   \/ (~Referenced(doc, Name(doc, i)) /\ Do("valueOneHash", SetSite(doc, i, 0, EStr)))     \* the blank string
 \* a category value with placeholders
 InjCatHash == CanInject /\ \E i \in Cols(doc) : ColType(Entry(doc, i), FALSE) = "categorical" /\
                  \E j \in Sites(doc, i) : \E h \in {1, 2} :
